@@ -37,6 +37,7 @@ def subspaces(tier):
     out += C.structure_subspaces(s4, 2, False, mode="plain")
     out += C.structure_subspaces(s3, 2, True, only_flexible=True, mode="plain")
     out += C.structure_subspaces(D.shapes(2, 3), 2, False, mode="plain", manual=True)
+    out += C.wide_subspaces(mode="plain") + C.tall_subspaces(mode="plain")
     out += C.structure_subspaces(D.shapes(3, 3) + [(2, 2)], 2, False, canonical=True, mode="late")
     out += C.structure_subspaces(D.shapes(2, 2), 2, True, only_flexible=True, mode="late")
     rs = s3 + [(2, 2)] if tier == "quick" else s4
